@@ -40,6 +40,7 @@ type Config struct {
 	SampleEvery int
 	reg         *VarRegistry
 	NoSummaries bool // disable pure-callee summarisation
+	NoFastPath  bool // disable the byte-domain fast path for branch feasibility
 	AllEvents   bool // keep one event per (kind, label, free choices) instead of per (kind, label)
 }
 
@@ -58,6 +59,7 @@ type RunStats struct {
 	PathsEndOK    int
 	MaxPC         int
 	Summaries     int
+	FastDecisions int // branch feasibility settled by byte-domain propagation instead of a solver query
 }
 
 type Event struct {
@@ -153,6 +155,9 @@ func (q *sharedQueue) done() {
 
 func (i *interpreter) pushPC(t *Term, neg bool) {
 	i.pc = append(i.pc, Lit{t, neg})
+	if !i.cfg.NoFastPath {
+		i.doms.note(t, neg)
+	}
 	if len(i.pc) > i.stats.MaxPC {
 		i.stats.MaxPC = len(i.pc)
 	}
@@ -179,7 +184,31 @@ func (i *interpreter) decide(c *Term) bool {
 			}
 		}
 		// is the other side feasible?
-		v, m := i.solver.Check(append(append([]Lit{}, i.pc...), Lit{c, mv}))
+		var v Verdict
+		var m Model
+		fast := -1
+		if !i.cfg.NoFastPath {
+			var bv *Term
+			var val uint8
+			fast, bv, val = i.doms.fastSide(c, mv)
+			switch fast {
+			case 0:
+				v = Unsat
+				i.stats.FastDecisions++
+			case 1:
+				v = Sat
+				m = make(Model, len(i.model))
+				copy(m, i.model)
+				for uint64(len(m)) <= bv.val {
+					m = append(m, 0)
+				}
+				m[bv.val] = uint64(val)
+				i.stats.FastDecisions++
+			}
+		}
+		if fast < 0 {
+			v, m = i.solver.Check(append(append([]Lit{}, i.pc...), Lit{c, mv}))
+		}
 		switch v {
 		case Sat:
 			alt := make([]int64, n+1)
@@ -431,6 +460,7 @@ func (i *interpreter) startPath(w workItem) {
 	i.mapRangers = nil
 	i.recordRangers = false
 	i.bigOrder = -1
+	i.doms.reset()
 }
 
 func (i *interpreter) choiceMap() map[string]int {
@@ -692,6 +722,7 @@ func Explore(cfg *Config) *Result {
 			s.AssumeCut += i.stats.AssumeCut
 			s.Panics += i.stats.Panics
 			s.Summaries += i.stats.Summaries
+			s.FastDecisions += i.stats.FastDecisions
 			if i.stats.MaxPC > s.MaxPC {
 				s.MaxPC = i.stats.MaxPC
 			}
